@@ -458,3 +458,156 @@ def check_indices(ctx: CheckContext, eng: InvalEngine, funcs: List[FuncInfo], ru
                        "" if ok else f"'{b}' is rebased by the number of inserted rows but its live copy '{other}' (taken at line {cst.lineno}: {norm_stmt(cst)}) "
                                      f"is not, and is read afterwards: the two now name different rows")
     return n_i2, n_i3
+
+
+# ---------------------------------------------------------------------------------------- derived values, source columns, mirrored branches
+def check_stale_derived(ctx: CheckContext, eng: InvalEngine, funcs: List[FuncInfo], rule: str = "INVAL"):
+    """I4: a value computed from row indices (e.g. a range object, an offset) before a call that may insert rows - whose result
+    re-binds those indices - is stale afterwards; using it addresses the wrong rows."""
+    ctx.rule(rule + "-I4", "a variable computed from row indices before a row-inserting call that re-binds those indices is not used after that call "
+                           "without being recomputed")
+    r = eng.r
+    n = 0
+    for f in funcs:
+        if isinstance(f.node, ast.Lambda) or f.cls is eng.pt:
+            continue
+        nodes = body_nodes(f)
+        stmts = [x for x in nodes if isinstance(x, ast.stmt)]
+        for st in stmts:
+            if not (isinstance(st, ast.Assign) and isinstance(st.value, ast.Call)):
+                continue
+            if not any(isinstance(t, FuncInfo) and t in eng.summary and "rows" in eng.summary[t].values() for t in r.resolve_call(f, st.value)):
+                continue
+            rebound = set()
+            for tg in st.targets:
+                for e in (tg.elts if isinstance(tg, (ast.Tuple, ast.List)) else [tg]):
+                    if isinstance(e, ast.Name):
+                        rebound.add(e.id)
+            passed = {a.id for a in st.value.args if isinstance(a, ast.Name)} | {k.value.id for k in st.value.keywords if isinstance(k.value, ast.Name)}
+            idx_vars = {v for v in rebound & passed if eng.r.type_of(f, ast.Name(id=v, ctx=ast.Load())) is not eng.pt}
+            if not idx_vars:
+                continue
+            # derived values assigned before the call from those indices
+            for d in stmts:
+                if d.lineno >= st.lineno or not isinstance(d, ast.Assign) or len(d.targets) != 1 or not isinstance(d.targets[0], ast.Name):
+                    continue
+                dv = d.targets[0].id
+                if dv in idx_vars or dv in rebound:
+                    continue
+                srcs = {x.id for x in ast.walk(d.value) if isinstance(x, ast.Name)} & idx_vars
+                if not srcs:
+                    continue
+                # pure copies are handled by I3; here: ranges / arithmetic
+                if isinstance(d.value, ast.Name):
+                    continue
+                reassigned_after = any(isinstance(x, ast.Assign) and any(isinstance(t, ast.Name) and t.id == dv for t in x.targets) and x.lineno > st.lineno for x in stmts)
+                used_after = [x for x in nodes if isinstance(x, ast.Name) and x.id == dv and isinstance(x.ctx, ast.Load) and x.lineno > st.end_lineno]
+                if not used_after:
+                    continue
+                n += 1
+                first_use = min(u.lineno for u in used_after)
+                ok = reassigned_after and all(any(isinstance(x, ast.Assign) and any(isinstance(t, ast.Name) and t.id == dv for t in x.targets)
+                                                  and st.lineno < x.lineno <= first_use for x in stmts) for _ in [0])
+                ctx.ob(rule + "-I4", f"{f.qualname}:{dv}@{norm_stmt(d)}", f"{f.module.relpath}:{first_use}", ok,
+                       "" if ok else f"'{dv}' is computed from {sorted(srcs)} (line {d.lineno}) before `{norm_stmt(st)[:70]}` may insert rows and re-binds them; "
+                                     f"its use at line {first_use} addresses the rows as they were numbered before the insertion")
+    return n
+
+
+def check_source_column_readonly(ctx: CheckContext, eng: InvalEngine, rule: str = "SRC-RO"):
+    """Functions that derive column <dst> from column <src> (both given as parameters) never store into <src>."""
+    ctx.rule(rule, "the pocket-removal functions take a source column and a destination column: every store goes to the destination "
+                   "(or the destination is initialised from the source); the source curve itself is never modified")
+    m = eng.p.modules.get("OpenPinch.analysis.gcc_manipulation")
+    if m is None:
+        raise AnalysisError("gcc_manipulation module not found")
+    n = 0
+    for f in [x for x in eng.p.all_funcs if x.module is m and not isinstance(x.node, ast.Lambda)]:
+        params = [a for a in f.pos_params if a.startswith("col_")]
+        if len(params) < 2:
+            continue
+        # destination = the column parameter that is assigned as a whole from the other (pt.col[dst] = pt.col[src]) or, failing that, the one with more stores
+        stores: Dict[str, List[ast.AST]] = {a: [] for a in params}
+        views: Dict[str, str] = {}
+        for x in body_nodes(f):
+            if isinstance(x, ast.Assign):
+                tg = x.targets[0]
+                pairs = list(zip(tg.elts, x.value.elts)) if isinstance(tg, (ast.Tuple, ast.List)) and isinstance(x.value, (ast.Tuple, ast.List)) and len(tg.elts) == len(x.value.elts) else [(tg, x.value)]
+                for t1, v1 in pairs:
+                    if isinstance(t1, ast.Name) and isinstance(v1, ast.Subscript) and isinstance(v1.slice, ast.Name) and v1.slice.id in params:
+                        views[t1.id] = v1.slice.id
+        for x in body_nodes(f):
+            tgs = []
+            if isinstance(x, ast.Assign):
+                tgs = x.targets
+            elif isinstance(x, ast.AugAssign):
+                tgs = [x.target]
+            for t in tgs:
+                for sub in ast.walk(t):
+                    if isinstance(sub, ast.Subscript) and isinstance(sub.ctx, ast.Store):
+                        names = {y.id for y in ast.walk(sub) if isinstance(y, ast.Name)}
+                        for a in params:
+                            if a in names or any(views.get(nm) == a for nm in names):
+                                stores[a].append(x)
+        dst = None
+        for x in body_nodes(f):
+            if isinstance(x, ast.Assign) and isinstance(x.targets[0], ast.Subscript) and isinstance(x.targets[0].slice, ast.Name) and x.targets[0].slice.id in params \
+                    and isinstance(x.value, ast.Subscript) and isinstance(x.value.slice, ast.Name) and x.value.slice.id in params and x.value.slice.id != x.targets[0].slice.id:
+                dst = x.targets[0].slice.id
+        if dst is None:
+            np_like = [a for a in params if a.upper().endswith("_NP") or "NP" in a.upper()]
+            dst = np_like[0] if np_like else max(params, key=lambda a: len(stores[a]))
+        for a in params:
+            if a == dst:
+                continue
+            for st in stores[a]:
+                n += 1
+                ctx.ob(rule, f"{f.qualname}:{norm_stmt(st)}", f"{f.module.relpath}:{st.lineno}", False,
+                       f"{f.name} writes into the source column '{a}' (destination is '{dst}'): the grand composite curve itself is modified")
+        n += 1
+        if not any(stores[a] for a in params if a != dst):
+            ctx.ob(rule, f"{f.qualname}:source-untouched", f.loc, True, f"destination '{dst}', {len(stores[dst])} store(s); source columns read-only")
+    return n
+
+
+def _negate_offsets(node: ast.AST) -> ast.AST:
+    """mirror image of an index expression tree: x + c <-> x - c for integer constants, range(a, b, -1) <-> range(a, b)"""
+    import copy
+
+    class T(ast.NodeTransformer):
+        def visit_BinOp(self, n):
+            self.generic_visit(n)
+            if isinstance(n.right, ast.Constant) and isinstance(n.right.value, int) and isinstance(n.op, (ast.Add, ast.Sub)):
+                n.op = ast.Sub() if isinstance(n.op, ast.Add) else ast.Add()
+            return n
+
+        def visit_Call(self, n):
+            self.generic_visit(n)
+            if isinstance(n.func, ast.Name) and n.func.id == "range":
+                if len(n.args) == 3 and isinstance(n.args[2], ast.UnaryOp) and isinstance(n.args[2].op, ast.USub):
+                    n.args = n.args[:2]
+                elif len(n.args) == 2:
+                    n.args = n.args + [ast.UnaryOp(op=ast.USub(), operand=ast.Constant(value=1))]
+            return n
+    return T().visit(copy.deepcopy(node))
+
+
+def check_mirrored_branches(ctx: CheckContext, eng: InvalEngine, rule: str = "MIRROR"):
+    """`if sgn > 0: A else: B` where both branches scan rows in opposite directions: B must be the mirror image of A
+    (every +c offset becomes -c, the range runs backwards) - sibling implementations of one search must agree."""
+    ctx.rule(rule, "the upward and the downward branch of a direction-dependent row scan are mirror images of each other (offsets negated, range reversed)")
+    m = eng.p.modules.get("OpenPinch.analysis.gcc_manipulation")
+    n = 0
+    for f in [x for x in eng.p.all_funcs if x.module is m and not isinstance(x.node, ast.Lambda)]:
+        for st in f.node.body:
+            if isinstance(st, ast.If) and isinstance(st.test, ast.Compare) and len(st.test.ops) == 1 and isinstance(st.test.left, ast.Name) \
+                    and st.test.left.id in f.pos_params and isinstance(st.test.comparators[0], ast.Constant) and st.test.comparators[0].value == 0 \
+                    and st.body and st.orelse and any(isinstance(x, ast.For) for x in st.body) and any(isinstance(x, ast.For) for x in st.orelse):
+                n += 1
+                a = ast.dump(ast.Module(body=st.body, type_ignores=[]))
+                b = ast.dump(_negate_offsets(ast.Module(body=st.orelse, type_ignores=[])))
+                ok = a == b
+                ctx.ob(rule, f"{f.qualname}:{norm_stmt(st.test)}", f"{f.module.relpath}:{st.lineno}", ok,
+                       "" if ok else f"the two direction branches of {f.name} are not mirror images: "
+                                     f"`{ast.unparse(st.body[0]).splitlines()[0]}` vs `{ast.unparse(st.orelse[0]).splitlines()[0]}` (one side scans a different row range)")
+    return n
